@@ -166,6 +166,8 @@ func (g *simGen) AllocateListener(conf turn.AllocateListenerConfig) (net.Listene
 	if g.inner != nil && g.innerTCP {
 		ln, adv, ierr := g.inner.AllocateListener(conf)
 		if ierr != nil {
+			g.rangeFull++
+
 			return nil, nil, ierr
 		}
 		sl, ok := ln.(*sim.Listener)
@@ -420,6 +422,12 @@ func NewWorld(cfg Config, verbose bool) (*World, error) {
 			},
 			OnPermissionDeleted: func(src, dst net.Addr, proto, user, realm string, relay net.Addr, peer net.IP) {
 				w.event(Event{Kind: "PermDeleted", Src: addrStr(src), Relay: addrStr(relay), Peer: peer.String(), User: user})
+				// at a tie step the operator's callback takes a moment as well (real scheduling only:
+				// the library holds the permission table's lock here), so that another expiry of the
+				// same instant and the request queue up behind it and meet in either order
+				for i := int64(0); i < 5*w.handlerYield.Load(); i++ {
+					runtime.Gosched()
+				}
 			},
 			OnChannelCreated: func(src, dst net.Addr, proto, user, realm string, relay, peer net.Addr, ch uint16) {
 				w.event(Event{Kind: "ChanCreated", Src: addrStr(src), Relay: addrStr(relay), Peer: addrStr(peer), Channel: ch, User: user})
